@@ -287,6 +287,8 @@ def cases(draw: Any, mode: str, big: int, tcp: bool = False) -> Dict[str, Any]:
     tiny = any(v <= 7 for v in fl.values())
     if draw(st.integers(0, 4)) == 0:
         fl['enable_conn_pool'] = True      # upstream connections acquired from / released to the worker's pool
+    if draw(st.integers(0, 4)) == 0:
+        fl['enable_events'] = True         # request / response events are published while relaying
     c['flags'] = fl
     if tiny:
         big = min(big, 6000)     # one byte per recv()/send(): keep the run bounded
@@ -379,6 +381,8 @@ def run_shard(spec: Dict[str, Any], seed: int, acc: Any) -> None:
                                   if b'connection' in hd else 'http/1.1'))
         if c.get('flags'):
             labs.append('flags:conn-pool' if c['flags'].get('enable_conn_pool') else 'flags:custom-buffers')
+            if c['flags'].get('enable_events'):
+                labs.append('flags:events')
         acc.case(c, nt, labels=labs)
         acc.size('max_bytes_moved', info['moved'])
         acc.size('max_iterations', info['iters'])
